@@ -155,7 +155,47 @@ pub const BOUNDARY_LINES: &[&str] = &[
     "\u{c}PRINT 1",
 ];
 
-const REPLIES: &[&str] = &["1", "0", "-5", "abc", "", "\"quoted\"", "1,2", "1:2", " 7 ", "\"a\" ", "é", ",", ":", "\"", "1e5", "inf", "99999999999999999999999999999999", "\"a\",\"b\"", "x\ny"];
+/// Statements of neighbouring BASIC dialects (and of the TODO notes in the source)
+/// that this interpreter does not accept today: each must be refused cleanly, and
+/// if one of them ever becomes legal its failure paths are exercised from day one.
+pub const DIALECT_LINES: &[&str] = &[
+    "INPUT A, B",
+    "INPUT A$, B, C(2)",
+    "INPUT \"N\"; A",
+    "INPUT \"HOW MANY\"; N, M$",
+    "PRINT TAB(3); 1",
+    "PRINT SPC(2); \"x\"",
+    "ON X GOTO 10, 20",
+    "ON X GOSUB 10, 20",
+    "NEXT I, J",
+    "FOR I = 1 TO 2 : NEXT",
+    "GET A$",
+    "DIM A(2), B$(3)",
+    "READ A, B$, C(1)",
+    "DEF FN A(X) = X + 1 : PRINT FN A(1)",
+    "RESTORE 10",
+    "X = 1E3",
+    "X = 2e-3",
+    "PRINT 5 MOD 2",
+    "PRINT SQR(4)",
+    "PRINT LEN(\"ab\") + VAL(\"1\")",
+    "PRINT LEFT$(\"ab\", 1); MID$(\"abc\", 2); CHR$(65)",
+    "A$ = STR$(1) + \"x\"",
+    "POKE 1, 2",
+    "HOME",
+    "CLS",
+    "ONERR GOTO 10",
+    "WHILE X : WEND",
+    "PRINT USING \"#\"; 1",
+    "IF X THEN PRINT 1 : PRINT 2 ELSE PRINT 3",
+    "SWAP A, B",
+    "X% = 1",
+    "LET A = 1, B = 2",
+    "PRINT A; B, C",
+    "DATA 1, X, \"s\", 2",
+];
+
+const REPLIES: &[&str] = &["1", "0", "-5", "abc", "", "\"quoted\"", "1,2", "1:2", " 7 ", "\"a\" ", "é", ",", ":", "\"", "1e5", "inf", "99999999999999999999999999999999", "\"a\",\"b\"", "x\ny", "1, X", "1,2,3", "a,b", "1, 2"];
 
 const COMMANDS: &[&str] = &["RUN", "CONT", "LIST", "NEW", "TRACE", "NOTRACE", "STATS", "INTERNALS", "RUN", "RUN", "CONT"];
 
@@ -208,6 +248,8 @@ pub fn structured_session() -> impl Strategy<Value = Session> {
 pub fn hostile_line() -> impl Strategy<Value = String> {
     prop_oneof![
         6 => (0..BOUNDARY_LINES.len()).prop_map(|i| BOUNDARY_LINES[i].to_string()),
+        2 => (0..DIALECT_LINES.len()).prop_map(|i| DIALECT_LINES[i].to_string()),
+        2 => (0u8..6, 0..DIALECT_LINES.len()).prop_map(|(n, i)| format!("{} {}", 10 * (n as u32 + 1), DIALECT_LINES[i])),
         4 => atom_line(14),
         2 => (0u8..40, atom_line(10)).prop_map(|(n, l)| format!("{} {}", n, l)),
         // a boundary line truncated / spliced
@@ -336,6 +378,12 @@ pub fn check_session(s: &Session, rec: &mut CaseRec) -> Verdict {
                                 format!("intent #{}: submitted {:?}; error {:?} renders {:?}", ii, t, e.text, e.caret),
                             );
                         }
+                    }
+                }
+                if kind == CallKind::Continue && e.line.is_none() {
+                    if let Some(n) = sess.line_before_last_cont {
+                        // the failing statement stood on a program line: the error is "IN" some line
+                        return Verdict::fail("unlocated-error-in-program-line", format!("intent #{} {:?}: the cursor was on line {} but error {:?} names no line (renders {:?})", ii, intent, n, e.text, e.caret));
                     }
                 }
                 if e.line.is_some() && e.caret.len() != 2 {
